@@ -80,7 +80,7 @@ impl Read for Dev {
         let avail = len.saturating_sub(s.cur) as usize;
         let n = buf.len().min(avail);
         let n = s.next_chunk(n);
-        let start = s.cur as usize;
+        let start = s.cur.min(len) as usize; // a cursor behind the end reads nothing
         buf[..n].copy_from_slice(&s.bytes[start..start + n]);
         s.cur += n as u64;
         Ok(n)
